@@ -319,6 +319,33 @@ theorem LineAlgo_closestPoints_no_div_by_zero (tmax : α) (l1 l2 : Line3 α) :
     · exact absurd hg (not_lt.mpr (abs_nonneg _))
   · rw [h]; intro hf; cases hf
 
+/-- why the overflow guard of `closestPoints` cannot recognise parallel STORED directions (finding
+`closestPoints:exactly-parallel-reported-true`): for `dir2 = ±dir1` with `|dir·dir − 1| ≤ δ` (a normalised float vector has `δ` of a
+few ulps) the denominator `1 − (d1·d2)²` is bounded by `2δ + δ²` but is ZERO only when `dir·dir = 1` exactly; otherwise the
+quotient `n/d` is formed (no guard fires unless `|n| ≥ max·|d|`) -/
+theorem cpDen_stored_parallel (l1 l2 : Line3 α) (δ : α) (hd : l2.dir = l1.dir ∨ l2.dir = neg l1.dir)
+    (h : |dot l1.dir l1.dir - 1| ≤ δ) :
+    |cpDen l1 l2| ≤ 2 * δ + δ ^ 2 ∧ (cpDen l1 l2 = 0 ↔ dot l1.dir l1.dir = 1) := by
+  have hq0 := dot_self_nonneg l1.dir
+  have hden : cpDen l1 l2 = (1 - dot l1.dir l1.dir) * (1 + dot l1.dir l1.dir) := by
+    rcases hd with h2 | h2 <;> (unfold cpDen; rw [h2]; simp only [dot, neg]; ring)
+  generalize dot l1.dir l1.dir = q at *
+  have hδ : 0 ≤ δ := le_trans (abs_nonneg _) h
+  obtain ⟨h1, h2⟩ := abs_le.mp h
+  constructor
+  · rw [hden, abs_mul]
+    have ha : |1 - q| ≤ δ := by rw [abs_sub_comm]; exact h
+    have hb : |1 + q| ≤ 2 + δ := by rw [abs_of_nonneg (by linarith)]; linarith
+    calc |1 - q| * |1 + q| ≤ δ * (2 + δ) := mul_le_mul ha hb (abs_nonneg _) hδ
+      _ = 2 * δ + δ ^ 2 := by ring
+  · rw [hden]
+    constructor
+    · intro h0
+      rcases mul_eq_zero.mp h0 with h3 | h3
+      · linarith
+      · linarith
+    · intro h1'; rw [h1']; ring
+
 /-! ## Line3::distanceTo(Line3) -/
 
 /-- `Line3::distanceTo(Line3)` (unit directions): the result is the distance between the lines, i.e. it is non-negative,
@@ -757,7 +784,7 @@ theorem Plane3_mulM44_projective (tmin tmax : α) (sqrt : α → α) (hlen : Len
     rw [hu] at hsum
     linarith
   obtain ⟨hw0, hwD⟩ := hw
-  obtain ⟨hw1, hw2⟩ := hwD D hD
+  obtain ⟨hw1, hw2⟩ := hwD D hD ⟨h1, h2, h3⟩
   have e1 : ∀ p, dot pl.normal (sub p (smul pl.distance pl.normal)) = signedDist pl p := by
     intro p; simp only [dot, sub, smul, signedDist] at hu ⊢; linear_combination (-pl.distance) * hu
   -- the projective core identity, with `D ⟂ n` and the unit normal
@@ -876,7 +903,7 @@ theorem Plane3_mulM44_collapse (tmin tmax : α) (sqrt : α → α) (hlen : LenSp
 theorem affine_MulM44Defined (pl : Plane3 α) (m : M44 α) (haff : Affine m) : MulM44Defined pl m ∧ det4 m = det3 m ∧ ∀ p, wOf p m = 1 := by
   obtain ⟨h03, h13, h23, h33⟩ := haff
   have hw : ∀ p, wOf p m = 1 := by intro p; simp only [wOf, h03, h13, h23, h33, mul_zero, add_zero, zero_add]
-  refine ⟨⟨by rw [hw]; exact one_ne_zero, fun D _ => ⟨by rw [hw]; exact one_ne_zero, by rw [hw]; exact one_ne_zero⟩⟩, ?_, hw⟩
+  refine ⟨⟨by rw [hw]; exact one_ne_zero, fun D _ _ => ⟨by rw [hw]; exact one_ne_zero, by rw [hw]; exact one_ne_zero⟩⟩, ?_, hw⟩
   simp only [det4, det3, h03, h13, h23, h33]; ring
 
 /-! ## Sphere3 -/
@@ -1988,7 +2015,7 @@ theorem Plane3_mulM44_projective_real_instance (tmin tmax : ℝ) :
       (mulM44 ⟨3, -2, 1⟩ ⟨1, 0, 0, 0, 0, 1, 0, 0, 0, 0, 1, 1 / 4, 0, 0, 0, 1⟩) := by
   have hu : dot (⟨0, 0, 1⟩ : V3 ℝ) ⟨0, 0, 1⟩ = 1 := by simp only [dot]; norm_num
   have hw : MulM44Defined (⟨⟨0, 0, 1⟩, 1⟩ : Plane3 ℝ) ⟨1, 0, 0, 0, 0, 1, 0, 0, 0, 0, 1, 1 / 4, 0, 0, 0, 1⟩ := by
-    refine ⟨by simp only [wOf, smul]; norm_num, fun D hD => ?_⟩
+    refine ⟨by simp only [wOf, smul]; norm_num, fun D hD _ => ?_⟩
     rcases hD with h | h | h <;> (subst h; simp only [wOf, add, smul, cross]; norm_num)
   have hdet : det4 (⟨1, 0, 0, 0, 0, 1, 0, 0, 0, 0, 1, 1 / 4, 0, 0, 0, 1⟩ : M44 ℝ) ≠ 0 := by simp only [det4]; norm_num
   obtain ⟨hunit, hiff⟩ := Plane3_mulM44_projective_iff tmin tmax Real.sqrt (realLenSpec tmin tmax) _ _ hu hw hdet
@@ -2009,6 +2036,8 @@ example (tmin tmax : ℝ) := LineAlgo_rotatePoint_circle tmin tmax Real.sqrt (fu
 end RealInstances
 
 /-! non-vacuity of the hypotheses of the new theorems -/
+/-- `cpDen_stored_parallel`: the same (slightly non-unit) direction twice, `δ = 1/1000` -/
+example : |dot (⟨1001 / 1000, 0, 0⟩ : V3 ℚ) ⟨1001 / 1000, 0, 0⟩ - 1| ≤ 21 / 10000 := by simp only [dot]; norm_num [abs_le]
 /-- `Line3_mulM44`: an affine matrix (scale 2 in x, translation (5,6,7)) that does not collapse the direction (1,0,0) -/
 example : Affine (⟨2, 0, 0, 0, 0, 1, 0, 0, 0, 0, 1, 0, 5, 6, 7, 1⟩ : M44 ℚ) ∧
     mulM44 (⟨0, 0, 0⟩ : V3 ℚ) ⟨2, 0, 0, 0, 0, 1, 0, 0, 0, 0, 1, 0, 5, 6, 7, 1⟩ ≠ mulM44 (add ⟨0, 0, 0⟩ ⟨1, 0, 0⟩) ⟨2, 0, 0, 0, 0, 1, 0, 0, 0, 0, 1, 0, 5, 6, 7, 1⟩ := by
